@@ -2,6 +2,7 @@ import Driver.Cast
 import Driver.Page
 import Driver.Hash
 import Driver.Streamer
+import Driver.Err
 
 def dispatch (line : String) : String :=
   match (line.trimAscii.toString.splitOn " ").filter (· ≠ "") with
@@ -9,6 +10,8 @@ def dispatch (line : String) : String :=
   | "page" :: rest => Driver.Page.handle rest
   | "hash" :: rest => Driver.Hash.handle rest
   | "stream" :: rest => Driver.Streamer.handle rest
+  | "err" :: rest => Driver.Err.handle rest
+  | "errtab" :: rest => Driver.Err.handleTab rest
   | _ => "bad-op"
 
 partial def loop (hin hout : IO.FS.Stream) : IO Unit := do
